@@ -410,4 +410,88 @@ theorem putIdx_agrees (alloc : Alloc) (a : Al) (idx : Nat) (data : Elem) (hidx :
           refine ⟨_, rfl, by simp [hret], ?_, by simp [hret], by intro _; simp⟩
           simp only [hlen']; rw [if_pos (by omega)]; push_cast; rfl
 
+
+/-- `array_list_insert_idx`.  `cp` = the answer of the nested `array_list_put_idx` (taken when `idx >= length`; tied by
+`putIdx_agrees`), `lp` the length it leaves; `cx` = the answer of `array_list_expand_internal(arr, length + 1)`. -/
+theorem insertIdx_agrees (alloc : Alloc) (a : Al) (idx : Nat) (data : Elem) (hidx : idx ≤ SIZE_T_MAX) (hlen : a.length ≤ SIZE_T_MAX)
+    (hsz : a.size ≤ SIZE_T_MAX)
+    (arr dp ap u1 lp ap2 cp ap3 cx cm : Int) (r : Res) (h : insertIdx alloc a idx data = .ok r)
+    (hcp : idx ≥ a.length → cp = r.ret ∧ lp = r.al.length)
+    (hcx : cx ≠ 0 ↔ (r.ret = -1 ∧ idx < a.length ∧ a.length ≠ SIZE_T_MAX)) :
+    ∃ out, Translated.array_list_insert_idx arr idx dp a.length ap u1 lp ap2 cp a.length ap3 cx cm = .ok out ∧
+      out.ret = r.ret ∧ out.arr_length = r.al.length ∧
+      (idx < a.length → r.ret = 0 →
+        out.calls = [("array_list_expand_internal", [arr, (a.length : Int) + 1]),
+                     ("memmove", [ap3 + (idx : Int) * 8 + 1 * 8, ap3 + (idx : Int) * 8, ((a.length - idx : Nat) : Int) * 8]),
+                     ("store8", [ap3 + (idx : Int) * 8, dp])]) := by
+  unfold insertIdx at h
+  unfold Translated.array_list_insert_idx
+  have hmx : SIZE_T_MAX = 18446744073709551615 := rfl
+  rw [hmx] at hidx hlen hsz hcx
+  by_cases hge : idx ≥ a.length
+  · rw [if_pos hge] at h
+    rw [if_pos (by omega)]
+    have ⟨h1, h2⟩ := hcp hge
+    exact ⟨_, rfl, h1, h2, by intro hlt; omega⟩
+  · rw [if_neg hge] at h
+    rw [if_neg (by omega)]
+    by_cases hfull : a.length = SIZE_T_MAX
+    · rw [if_pos hfull] at h
+      cases h
+      rw [hmx] at hfull
+      rw [if_pos (by omega)]
+      exact ⟨_, rfl, rfl, rfl, by intro _ h0; simp at h0⟩
+    · rw [if_neg hfull] at h
+      rw [hmx] at hfull
+      rw [if_neg (by omega)]
+      have hn1 : alInsNeed = 1 := rfl
+      rw [hn1] at h
+      have hck : ckSize (a.length + 1) "insert_idx: arr->length + 1" = .ok (a.length + 1) := by
+        unfold ckSize; rw [if_pos (by rw [hmx]; omega)]
+      rw [hck] at h
+      simp only [Outcome.bind_ok] at h
+      cases hx : expandInternal alloc a (a.length + 1) with
+      | fault w => rw [hx] at h; cases h
+      | ok e =>
+        rw [hx] at h
+        have hl := expandInternal_length alloc a _ (by rw [hmx]; omega) (by rw [hmx]; omega) e hx
+        obtain ⟨a1, rc⟩ := e
+        simp only [Outcome.bind_ok] at h hl
+        by_cases hrc : rc ≠ 0
+        · rw [if_pos hrc] at h
+          cases h
+          have : cx ≠ 0 := hcx.mpr ⟨rfl, by omega, by omega⟩
+          rw [if_pos this]
+          exact ⟨_, rfl, rfl, by simp [hl], by intro _ h0; simp at h0⟩
+        · rw [if_neg hrc] at h
+          -- the tail: d, memmove, store, length + 1
+          simp only [ckSub, ckSize_bind, PTR, sizeofPtr] at h
+          rw [if_pos (by omega)] at h
+          simp only [Outcome.bind_ok] at h
+          split at h
+          · cases hmv : memmoveSlots a1.slots (idx + 1) idx (a1.length - idx) "insert_idx" with
+            | fault w => rw [hmv] at h; cases h
+            | ok sl =>
+              rw [hmv] at h
+              simp only [Outcome.bind_ok] at h
+              cases hw : writeSlot { slots := sl, length := a1.length, size := a1.size } idx data "insert_idx: arr->array[idx] = data" with
+              | fault w => rw [hw] at h; cases h
+              | ok a2 =>
+                rw [hw] at h
+                have ⟨hl2, _⟩ := writeSlot_length _ _ _ _ _ hw
+                simp only [Outcome.bind_ok] at h hl2
+                split at h
+                · cases h
+                  have hcx0 : ¬ cx ≠ 0 := fun hc => by have := (hcx.mp hc).1; simp at this
+                  rw [if_neg hcx0]
+                  have hm1 : (((a.length : Int) + 1) % 18446744073709551616) = (a.length : Int) + 1 := by omega
+                  have hm2 : ((((a.length : Int) - (idx : Int)) % 18446744073709551616) * 8) % 18446744073709551616 = ((a.length - idx : Nat) : Int) * 8 := by
+                    rw [hl] at *; omega
+                  simp only [hm1, hm2]
+                  refine ⟨_, rfl, rfl, ?_, ?_⟩
+                  · simp only [hl2, hl]; push_cast; rfl
+                  · intro _ _; simp
+                · cases h
+          · cases h
+
 end JsonC.TranslatedAl
